@@ -67,3 +67,41 @@ def encode_then_decode(cls, seq, group, zero):
     assert type(back) is cls
     assert back == t
     assert back.sequence_number == t.sequence_number
+
+
+# ------------------------------------------------------------------ the octet as the library puts it into a frame
+# "every transport PDU the library builds": the PDU leaves through CEMILData.to_knx, which merges it with the
+# first octet of the APDU (data PDUs) or sends it alone (control PDUs); CEMILData.from_knx reads it back.
+
+from contracts.cemi_common import APCI_STUBS, AnyAPCI  # noqa: E402
+from pyvc.api import Bytes, Obj, assume  # noqa: E402
+from xknx.cemi.cemi_frame import CEMILData  # noqa: E402
+from xknx.cemi.flags import CEMIFlags  # noqa: E402
+from xknx.telegram.address import GroupAddress, IndividualAddress  # noqa: E402
+
+_SRC = Obj(IndividualAddress, raw=Int(0, 0xFFFF))
+_DST = Choice(Obj(GroupAddress, raw=Int(0, 0xFFFF)), Obj(IndividualAddress, raw=Int(0, 0xFFFF)))
+_ALL = (TDataGroup, TDataBroadcast, TDataTagGroup, TDataIndividual, TDataConnected, TConnect, TDisconnect, TAck, TNak)
+
+
+@lemma("C03", params=dict(seq=Int(0, 15), src=_SRC, dst=_DST, enc=Bytes(min_len=2, max_len=16)), family=[dict(cls=c) for c in _ALL], stubs=APCI_STUBS)
+def the_octet_in_a_built_frame_decodes_to_the_same_pdu(cls, seq, src, dst, enc):
+    """CEMILData.to_knx / from_knx, every PDU class with every destination it is defined for, any APDU whose
+    encoder leaves the six transport bits clear (C06): the TPCI octet of the frame carries exactly the PDU's
+    transport bits (all eight for control PDUs) and the frame parses back to the same PDU."""
+    group, zero = isinstance(dst, GroupAddress), dst.raw == 0
+    t = cls(seq) if cls in (TDataConnected, TAck, TNak) else cls()
+    if not admissible(t, group, zero):
+        return
+    if isinstance(t, TDataBroadcast) != (group and zero) and not isinstance(t, TDataTagGroup):
+        return
+    assume(enc[0] & 0xFC == 0)
+    payload = None if t.control else AnyAPCI(enc=enc)
+    w = CEMILData(flags=CEMIFlags(), src_addr=src, dst_addr=dst, tpci=t, payload=payload).to_knx()
+    octet = w[7]
+    if t.control:
+        assert octet == t.to_knx() and len(w) == 8
+    else:
+        assert octet & 0xFC == t.to_knx() & 0xFC and octet & 0x03 == enc[0] & 0x03
+    back = CEMILData.from_knx(bytes(w)).tpci
+    assert type(back) is cls and back == t and back.sequence_number == t.sequence_number
